@@ -300,6 +300,25 @@ pub fn c15(ctx: &mut Ctx) {
             home_case(l, F::Nack, &w.to_be_bytes(), idx);
         });
     }
+    // pairs of words whose second PID stands in every small relation to the first word: PID2 = PID1 + k for k in
+    // 0..=18, the first word's mask empty / one bit at every position / full, from bases in the middle, next to
+    // 0x8000 and next to the wrap (a word that continues, repeats or overlaps what its predecessor reported)
+    ctx.run_space("nack-word-pairs-pid-relations", 19 * 18 * 4 * 3, |idx, l| {
+        let k = (idx % 19) as u16;
+        let m1: u16 = match (idx / 19) % 18 {
+            0 => 0,
+            17 => 0xFFFF,
+            b => 1 << (b - 1),
+        };
+        let p1 = [100u16, 0x7FF8, 0xFFFA, 0xFFEF][((idx / 342) % 4) as usize];
+        let m2 = [0u16, 0x0001, 0x8421][(idx / 1368) as usize];
+        let mut body = Vec::new();
+        body.extend_from_slice(&p1.to_be_bytes());
+        body.extend_from_slice(&m1.to_be_bytes());
+        body.extend_from_slice(&p1.wrapping_add(k).to_be_bytes());
+        body.extend_from_slice(&m2.to_be_bytes());
+        home_case(l, F::Nack, &body, idx);
+    });
     // NACK lists
     let bw: [u32; 12] = [0, 0xFFFF_FFFF, 0x0000_FFFF, 0xFFFF_0000, 0x1234_0001, 0x1234_8000, 0xFFFF_8000, 0xFFF0_FFFF, 0x0001_0000, 0x8000_0001, 0x0010_0100, 0xFFEF_0001];
     let n = seq_count(12, 3) - 1 - 12;
